@@ -68,6 +68,7 @@ class C14:
         cfg = E.sample_cfg(name, rc, tier)
         if tier != "thorough" and cfg["n"] > 8 and rc.random() < 0.6:
             cfg = E.sample_cfg(name, rc, tier)  # fewer big instances in the quick tier
+        cfg = E.for_network(cfg)
         spec = U.sample_policy_spec(pol, name, rc)
         if pol == "matnet" and cfg["gen"]["num_loc"] > spec["embed_dim"]:
             spec["embed_dim"] = 64  # MatNet's one-hot column embedding needs embed_dim >= number of nodes
